@@ -125,7 +125,9 @@ func runC18(c *eng.Ctx) {
 		minInt := p.Field(pkgHTypes, "Settings", "ExecutionMinInterval")
 		burstF := p.Field(pkgHTypes, "Settings", "ExecutionBurst")
 		var limitVar, burstVar types.Object
-		for _, call := range callsDeep(info, f.Decl.Body, func(o types.Object, _ *ast.CallExpr) bool { return eng.IsPkgFunc(o, "golang.org/x/time/rate", "NewLimiter") }) {
+		for _, call := range callsDeep(info, f.Decl.Body, func(o types.Object, _ *ast.CallExpr) bool {
+			return eng.IsPkgFunc(o, "golang.org/x/time/rate", "NewLimiter")
+		}) {
 			if len(call.Args) == 2 {
 				limitVar, burstVar = eng.SelObj(info, call.Args[0]), eng.SelObj(info, call.Args[1])
 			}
@@ -186,7 +188,9 @@ func runC18(c *eng.Ctx) {
 			// "exactly when": with settings present and a non-zero value the assignment cannot be bypassed
 			var newLim *eng.GNode
 			for _, n := range g.Nodes {
-				if len(g.CallsAt(n, func(o types.Object, _ *ast.CallExpr) bool { return eng.IsPkgFunc(o, "golang.org/x/time/rate", "NewLimiter") })) > 0 {
+				if len(g.CallsAt(n, func(o types.Object, _ *ast.CallExpr) bool {
+					return eng.IsPkgFunc(o, "golang.org/x/time/rate", "NewLimiter")
+				})) > 0 {
 					newLim = n
 				}
 			}
@@ -283,6 +287,8 @@ func runC18(c *eng.Ctx) {
 			}
 		}
 		_ = g
-		checkErrSites(r4, f, func(o types.Object) bool { return o.Name() == "ParseDuration" || o.Name() == "ParseInt" || o.Name() == "Atoi" }, accum, nil)
+		checkErrSites(r4, f, func(o types.Object) bool {
+			return o.Name() == "ParseDuration" || o.Name() == "ParseInt" || o.Name() == "Atoi"
+		}, accum, nil)
 	}
 }
